@@ -533,6 +533,19 @@ func TestVerifC12Table(t *testing.T) {
 	if verifThorough() {
 		nh = 300
 	}
+	{
+		// a shim whose backend is not there at all (connection refused): every open is a failed dial
+		ln, _ := net.Listen("tcp", "127.0.0.1:0")
+		dead := ln.Addr().String()
+		ln.Close()
+		shim := newVerifShim(dead, false)
+		var ops []map[string]interface{}
+		for k := 0; k < 3; k++ {
+			r, _ := shim.open("ws://ignored/ws", "1")
+			ops = append(ops, map[string]interface{}{"op": "open", "dial_ok": false, "status": r.Status, "why": "connection-refused", "panic": r.Panic})
+		}
+		out.emit(map[string]interface{}{"kind": "table", "index": -1, "ops": ops, "backend_received": map[string][]string{}})
+	}
 	for hi := 0; hi < nh; hi++ {
 		be := newVerifWSBackend()
 		shim := newVerifShim(be.host(), false)
@@ -559,9 +572,11 @@ func TestVerifC12Table(t *testing.T) {
 		for i := 0; i < n; i++ {
 			switch k := rng.intn(12); {
 			case k < 2 || len(sess) == 0:
-				if rng.intn(5) == 0 {
-					r, _ := shim.open("ws://ignored/reject-handshake", "1")
-					ops = append(ops, map[string]interface{}{"op": "open", "dial_ok": false, "status": r.Status})
+				if rng.intn(4) == 0 {
+					// a dial that fails: the backend answers the upgrade request with 403, or hangs up without answering it
+					why := []string{"reject-handshake", "hang-up"}[rng.intn(2)]
+					r, _ := shim.open("ws://ignored/"+why, "1")
+					ops = append(ops, map[string]interface{}{"op": "open", "dial_ok": false, "status": r.Status, "why": why, "panic": r.Panic})
 					continue
 				}
 				r, id := shim.open("ws://ignored/ws", "1")
